@@ -233,6 +233,51 @@ fn check_program(prog: &[S], seed: u64, split: Option<(usize, usize)>, obs: &mut
     }
 }
 
+/// A name used as the width of a type is a use like any other: undeclared, declared later or declared
+/// in a scope that has been closed it is reported as undefined exactly once; declared before, not at all.
+const DESIGNATOR_USES: &[&str] = &[
+    "int[n] x;", "bit[n] b;", "qubit[n] qr;", "complex[float[n]] z;", "int y; int[n](y);", "for uint[n] i in [0:1] { }", "def f(int[n] a) { }",
+    "def f() -> int[n] { }", "angle[n] a;", "input float[n] fi;", "const uint[n] u = 1;",
+];
+
+fn designator_case(i: usize, obs: &mut Obs) {
+    let stmt = DESIGNATOR_USES[i % DESIGNATOR_USES.len()];
+    let variant = (i / DESIGNATOR_USES.len()) % 4;
+    let in_block = (i / DESIGNATOR_USES.len() / 4) % 2 == 1;
+    // definitions, io and qubit declarations stay at the global scope
+    let global_only = stmt.starts_with("def") || stmt.starts_with("input") || stmt.starts_with("qubit");
+    let body = if in_block && !global_only { format!("if (true) {{ {stmt} }}") } else { stmt.to_string() };
+    let (src, want) = match variant {
+        0 => (body.clone(), 1usize),
+        1 => (format!("const int n = 8;\n{body}"), 0),
+        2 => (format!("{body}\nconst int n = 8;"), 1),
+        _ => (format!("if (true) {{ const int n = 8; }}\n{body}"), 1),
+    };
+    obs.fp.str(&src);
+    let vname = ["undeclared", "declared-before", "declared-later", "declared-in-closed-scope"][variant];
+    match analyse_text(&src) {
+        Err(AErr::Rejected(m)) => obs.inconclusive(format!("rejected by the parser (C04): {m}")),
+        Err(AErr::Panic(site, _)) => obs.inconclusive(format!("analysis panicked (C03): {site}")),
+        Ok(res) => {
+            let got = res
+                .semantic_errors()
+                .iter()
+                .filter(|e| {
+                    let (a, b): (usize, usize) = (e.range().start().into(), e.range().end().into());
+                    diag_kind(e) == "UndefVarError" && src.get(a..b) == Some("n")
+                })
+                .count();
+            if got != want {
+                let kinds: Vec<String> = res.semantic_errors().iter().map(diag_kind).collect();
+                obs.violate(format!("designator-use/{vname}/undefined-not-exactly-once/{}", stmt.split(['[', ' ']).next().unwrap_or("")), format!("{src:?}: UndefVarError for `n` reported {got} times, expected {want}; diagnostics {kinds:?}"));
+            }
+            obs.class("designator-use");
+            obs.note = format!("{src:?}: UndefVarError(n) x {got}");
+            obs.done(true);
+        }
+    }
+}
+
 impl Property for C07 {
     fn id(&self) -> &'static str {
         "C07"
@@ -245,6 +290,7 @@ impl Property for C07 {
             Stream::new("random-programs-small-name-pool", tier.pick(30_000, 1_500_000), false, move |i| format!("rand:{}", mix(&[seed, 0xC07, 1, i]))),
             Stream::new("random-programs-deep", tier.pick(4_000, 200_000), false, move |i| format!("deep:{}", mix(&[seed, 0xC07, 2, i]))),
             Stream::new("scope-kind-table", 9 * 4, true, |i| format!("scope:{}:{}", i % 9, i / 9)),
+            Stream::new("names-used-as-type-widths", (DESIGNATOR_USES.len() * 4 * 2) as u64, true, |i| format!("des:{i}")),
             Stream::new("random-programs-split-across-include-chains", tier.pick(3_000, 100_000), false, move |i| format!("inc:{}", mix(&[seed, 0xC07, 3, i]))),
         ]
     }
@@ -275,6 +321,7 @@ impl Property for C07 {
                 };
                 check_program(&prog, seed, split, obs);
             }
+            "des" => designator_case(parts[1].parse().unwrap_or(0), obs),
             "scope" => {
                 // a declaration inside scope kind k, then a use after the scope closed (variant v)
                 let k: u64 = parts[1].parse().unwrap_or(0);
@@ -289,7 +336,7 @@ impl Property for C07 {
         }
     }
     fn mandatory_classes(&self, _tier: Tier) -> Vec<&'static str> {
-        vec!["shadowed:use", "outer:use", "same-scope:use", "after-exit:use", "undeclared", "duplicate", "builtin:use", "scope-table", "split-across-include-chain"]
+        vec!["shadowed:use", "outer:use", "same-scope:use", "after-exit:use", "undeclared", "duplicate", "builtin:use", "scope-table", "split-across-include-chain", "designator-use"]
     }
 }
 
